@@ -12,7 +12,8 @@ map keys sorted as `encoding/json` sorts them, `[]byte` as a base64 string, `net
 quad; any other length is a marshal error: nothing is published), the MAC and address *strings* as
 `fmt.Sprintf` / `net.IP.String` produce them (address strings pass through `encoding/json`'s string
 escaping, which is the identity on address text), numbers as their decimal text, `null` for absent
-layers.  `ColTime` is rendered as 0 (the harness zeroes it on the Go side).
+layers, the members of an embedded struct pointer (`sflow.RawHeader` embeds `*packet.Packet`, F33) promoted into the
+enclosing object behind its own fields and left out altogether when the pointer is nil.  `ColTime` is rendered as 0 (the harness zeroes it on the Go side).
 
 That this rendering equals what `encoding/json` (library code) emits is established by the
 correspondence (kinds `sflow`, `sflowf`, `dissect`), not proved; what is proved
@@ -98,7 +99,20 @@ def l4Tree : L4 → Json
   | .tcp s d off res fl => numObj ["SrcPort", "DstPort", "DataOffset", "Reserved", "Flags"] [s, d, off, res, fl]
   | .udp s d => numObj ["SrcPort", "DstPort"] [s, d]
 
-def pktTree (p : Pkt) : Json := obj [("L2", l2Tree p.l2), ("L3", l3Tree p.l3), ("L4", l4Tree p.l4)]
+/-- the members of a `packet.Packet` (the unexported `data` is not rendered) -/
+def pktMembers (p : Pkt) : List (String × Json) := [("L2", l2Tree p.l2), ("L3", l3Tree p.l3), ("L4", l4Tree p.l4)]
+
+def pktTree (p : Pkt) : Json := obj (pktMembers p)
+
+/-- the four words of the raw-header record, as `sflow.RawHeader` declares them -/
+def rawHeaderWords (h : RawHeader) : List (String × Json) :=
+  [("Protocol", num h.protocol), ("FrameLength", num h.frameLength), ("Stripped", num h.stripped),
+   ("HeaderLength", num h.headerLength)]
+
+/-- `sflow.RawHeader` (F33): the four words, then the members of the embedded `*packet.Packet` — `encoding/json`
+promotes the fields of an embedded struct into the enclosing object and leaves them out when the pointer is nil -/
+def rawHeaderTree (h : RawHeader) : Json :=
+  obj (rawHeaderWords h ++ (match h.pkt with | none => [] | some p => pktMembers p))
 
 /-! ## samples -/
 
@@ -115,7 +129,7 @@ def entry {α : Type} (k : String) (f : α → Json) : Option α → List (Strin
 
 /-- keys of an `encoding/json` map are sorted: ExtRouter < ExtSwitch < RawHeader -/
 def flowRecsTree (m : FlowRecs) : Json :=
-  obj (entry "ExtRouter" extRouterTree m.rtr ++ entry "ExtSwitch" extSwitchTree m.sw ++ entry "RawHeader" pktTree m.raw)
+  obj (entry "ExtRouter" extRouterTree m.rtr ++ entry "ExtSwitch" extSwitchTree m.sw ++ entry "RawHeader" rawHeaderTree m.raw)
 
 def flowSampleTree (s : FlowSample) : Json :=
   obj [("SequenceNo", num s.seqNo), ("SourceID", num s.sourceID), ("SourceIDIdx", num s.sourceIDIdx),
